@@ -121,7 +121,16 @@ func BuildBinary(repoDir, dir, ldVersion string) (*Binary, error) {
 	out := filepath.Join(dir, name)
 	args := []string{"build", "-o", out}
 	if ldVersion != "" {
-		args = append(args, "-ldflags", "-X 'main.version="+ldVersion+"'")
+		// "<version>|<extra>": the other variables release builds inject (make build, goreleaser): extra is "dirty" or "clean"
+		v, extra, _ := strings.Cut(ldVersion, "|")
+		ld := "-X 'main.version=" + v + "'"
+		switch extra {
+		case "dirty":
+			ld += " -X main.isGitDirty=true -X main.commit=0123abc -X main.date=2024-01-02T03:04:05Z -X main.builtBy=verif"
+		case "clean":
+			ld += " -X main.isGitDirty=false -X main.commit=0123abc -X main.date=2024-01-02T03:04:05Z -X main.builtBy=verif"
+		}
+		args = append(args, "-ldflags", ld)
 	}
 	args = append(args, ".")
 	cmd := exec.Command("go", args...)
